@@ -82,18 +82,24 @@ func c10CheckRun(snaps []c10Snap, from int, rn uint32) int {
 //   0: START, STOP, START        1: START, GO_ERROR        2: START (tasks fail), START
 //   3: START, STOP (tasks fail), GO_ERROR (what the API does with a failed transition)
 //   4: START cancelled by a failing critical before_START_ACTIVITY+1 hook, START
-//verif:entry HarnessRunBracket unwind=96 preempt=0 reach=h0,h1,h2,h3,h4 stub=github.com/AliceO2Group/Control/common/utils.TimeTrack nosched=github.com/AliceO2Group/Control/core/the.mu steps=6000000
+//   5: START, STOP whose tasks stop but a critical hook fails late (enter_CONFIGURED+1 or after_STOP_ACTIVITY+1):
+//      the run is over all the same - end stamps set, number gone -, then START again
+//verif:entry HarnessRunBracket unwind=96 preempt=0 reach=h0,h1,h2,h3,h4,h5 stub=github.com/AliceO2Group/Control/common/utils.TimeTrack nosched=github.com/AliceO2Group/Control/core/the.mu steps=6000000
 func HarnessRunBracket() {
-	hist := vrt.IntRange("history", 0, 4)
+	hist := vrt.IntRange("history", 0, 5)
 	rn1, rn2 := vrt.Uint32("rn1"), vrt.Uint32("rn2")
 	vrt.Assume(rn1 > 0 && rn2 > rn1)
 	rec := &fenvRec{}
 	var env *Environment
 	var snaps []c10Snap
-	hookFailsOnce := hist == 4
+	hookFailsOnce := hist == 4 || hist == 5
+	failingHook := "before_START_ACTIVITY+1"
+	if hist == 5 {
+		failingHook = []string{"enter_CONFIGURED+1", "after_STOP_ACTIVITY+1"}[vrt.IntRange("late.failure", 0, 1)]
+	}
 	rec.onCall = func(c *callable.Call) error {
 		snaps = append(snaps, c10Take(env, c.GetName()))
-		if hookFailsOnce && c.GetName() == "root.before_START_ACTIVITY+1" {
+		if hookFailsOnce && c.GetName() == "root."+failingHook {
 			hookFailsOnce = false
 			return errors.New("hook failed")
 		}
@@ -107,9 +113,9 @@ func HarnessRunBracket() {
 		return rn2
 	}
 	probes := c10Probes()
-	if hist == 4 {
+	if hist == 4 || hist == 5 {
 		for i := range probes {
-			probes[i].critical = probes[i].name == "before_START_ACTIVITY+1"
+			probes[i].critical = probes[i].name == failingHook
 		}
 	}
 	env = fenvNew(conf, rec, "CONFIGURED", probes)
@@ -161,6 +167,18 @@ func HarnessRunBracket() {
 		vrt.Assert(conf.rnCalls == 2, "every-attempt-to-start-draws-a-fresh-run-number")
 		c10CheckRun(snaps, n, rn2)
 		vrt.Reach("h4")
+	case 5:
+		vrt.Assert(env.TryTransition(start) == nil && env.CurrentState() == "RUNNING", "first-start-succeeds")
+		vrt.Assert(env.TryTransition(stop) != nil && env.CurrentState() == "CONFIGURED", "late-hook-failure-is-reported-and-the-run-is-stopped")
+		endSet()
+		vrt.Assert(env.GetCurrentRunNumber() == 0, "run-number-gone-after-stop")
+		_, has := env.workflow.GetVars().Get("run_number")
+		vrt.Assert(!has, "run-number-variable-gone-after-stop")
+		vrt.Assert(env.TryTransition(start) == nil && env.CurrentState() == "RUNNING", "second-start-succeeds")
+		next := c10CheckRun(snaps, 0, rn1)
+		vrt.Assert(next < len(snaps), "second-run-was-observed")
+		c10CheckRun(snaps, next, rn2)
+		vrt.Reach("h5")
 	case 3:
 		vrt.Assert(env.TryTransition(start) == nil, "start-succeeds")
 		vrt.Assert(env.TryTransition(stop) != nil && env.CurrentState() == "RUNNING", "failed-stop-stays-running")
